@@ -45,7 +45,9 @@ def run_case(ck, stats, rng, scen):
     sb = mdrun.Sandbox()
     # (a source maildir whose name contains ':' or a backslash followed by a digit: its path is used as it is - the path of a flag /
     # flags action is the message's own maildir, never a template)
-    srcname = rng.choice(['src', 's:rc', 'box\\1x', 'b\\0.1']) if scen.get('colon_src') else 'src'
+    srcname = rng.choice(['src', 's:rc', 'box\\1x', 'b\\0.1', 'new/inbox', 'top/new/cur/box']) if scen.get('colon_src') else 'src'
+    if scen.get('src_name'):
+        srcname = scen['src_name']
     src = sb.maildir(srcname)
     dstroot = sb.maildir(scen['mdname'])
     name, srcsub = scen['name'], scen['srcsub']
@@ -269,6 +271,11 @@ def run(ck):
     for act in acts:
         scens.append(dict(name=rng.choice(NAMES[:6]), srcsub=rng.choice(['new', 'cur']), action=act, mdname='dst', prepop=0, extra='T' if 'flags' in act else '',
                           colon_src=True, xdev=False))
+    # maildirs below directories that are themselves called new / cur: the sub-directory of a message is the last but one component of its path
+    for act in acts:
+        for sub in ('new', 'cur'):
+            scens.append(dict(name=rng.choice(NAMES[:6]), srcsub=sub, action=act, mdname='dst', prepop=0, extra='T' if 'flags' in act else '',
+                              colon_src=False, xdev=False, src_name=rng.choice(['new/inbox', 'top/new/cur/box', 'cur/new'])))
     for sc in scens:
         if sc['action'] in ('flags', 'flags_move') and sc['extra'] == '':
             sc['extra'] = 'T'
@@ -287,7 +294,7 @@ def run(ck):
         'distinct_nontrivial': len(stats['nontrivial']),
         'rule': 'nine runs over four maildirs that contain one another or share a prefix (flag / flags must keep each message in its own maildir); then one message per run; file name from 17 suffix shapes (absent, empty, sorted/unsorted/duplicate letters, all 52 letters, invalid: wrong version, '
                 'missing comma, digit, dash, second suffix), both subdirectories, action from {move, flag new, flag !new, flags, move+flag, flag+move, flags+move}, '
-                'destination maildir names with space, %, UTF-8 and ":", source maildir names with ":" and with a backslash followed by a digit, 0-5 pre-existing candidate names and five runs with 128-300 of them in a row; six runs of three messages under an invalid flags string and two in which the new/ of the destination is renamed away after the first delivery; a quarter of the runs and one per action and subdirectory with the rename failing with EXDEV (copy path); clock/pid/host/random pinned; five host-name lengths that put the generated name at NAME_MAX-2 .. NAME_MAX+2; '
+                'destination maildir names with space, %, UTF-8 and ":", source maildir names with ":", with a backslash followed by a digit, and below directories called new / cur, 0-5 pre-existing candidate names and five runs with 128-300 of them in a row; six runs of three messages under an invalid flags string and two in which the new/ of the destination is renamed away after the first delivery; a quarter of the runs and one per action and subdirectory with the rename failing with EXDEV (copy path); clock/pid/host/random pinned; five host-name lengths that put the generated name at NAME_MAX-2 .. NAME_MAX+2; '
                 'non-trivial = valid flags (the message must be renamed); distinct = distinct (name, subdir, action, prepopulation, letters)',
         'samples': scens[:4],
         'traces_validated_against_impl': stats['evals'],
